@@ -73,7 +73,9 @@ var props = []*propSpec{
 }
 
 func init() {
-	props = append(props, &propSpec{ID: "C20", Level: "exploration", Clauses: []string{"C20."},
+	// "everything it writes conforms to that same format" includes the file
+	// naming per key space: the name-grammar clause of C04 is C20's too
+	props = append(props, &propSpec{ID: "C20", Level: "exploration", Clauses: []string{"C20.", "C04.name-grammar"},
 		Scens:  []scenSpec{{Name: "upload", Weight: 2}, {Name: "restartdir", Weight: 3, Batch: 20}, {Name: "backend", Weight: 2}, {Name: "names", Weight: 1, Batch: 50}, {Name: "conc", Weight: 1}},
 		QuickS: 45, ThorS: 600, Rule: ruleCommon + "; for the 'names' scenario a run is a batch of (kind, hash, prefix, mode) tuples evaluated through the S3/Azure key functions (pure-function spot check)"})
 	// "holds no ... reserved space or temporary file" after a request ended:
